@@ -363,7 +363,8 @@ RefinesCounters == Abs!CSpec
 (* announced at the default verbosity, every later one only with -v; the summary follows at the end.           *)
 SkippedSiteNames == LET S == SelectSeq([r \in 1..Len(recs) |-> r], LAMBDA r : r <= i /\ RowClass(recs[r]) = "skip")
                     IN  [k \in 1..Len(S) |-> SiteName(S[k])]
-AnnouncedAt(verbosity) == IF verbosity >= 1 THEN SkippedSiteNames
+AnnouncedAt(verbosity) == IF verbosity < 0 THEN <<>>              \* -q / -qq: nothing below a warning is shown
+                          ELSE IF verbosity >= 1 THEN SkippedSiteNames
                           ELSE IF SkippedSiteNames = <<>> THEN <<>> ELSE <<SkippedSiteNames[1]>>
 
 (****************************** JSON boundary ******************************)
